@@ -21,7 +21,8 @@ def run(ctx):
     items = []
 
     def add(expr, T=None):
-        items.append({"id": len(items), "expr": expr, "T": T})
+        # every second formula is built with all its intermediate operands printed / Hill-ordered first
+        items.append({"id": len(items), "expr": expr, "T": T, "touch": len(items) % 2 == 1})
     strings = []
     for r in recs:
         ats = rot.distinct(r["nat"])
